@@ -166,8 +166,12 @@ def _trace(ctx, n_per_shard):
 
     events: list = []
     real_choice = np.random.choice
-    real_nb = G.get_neighbors_in_bounds
-    real_start = G._random_start_coord
+    real_nb = getattr(G, "get_neighbors_in_bounds", None)
+    real_start = getattr(G, "_random_start_coord", None)
+    if real_nb is None:
+        ctx.tally("c19:trace:not-observed", n_per_shard)
+        ctx.note("trace layer not applicable: generators.get_neighbors_in_bounds does not exist")
+        return
     state = dict(on=False)
 
     def w_choice(a, *args, **kw):
@@ -182,15 +186,16 @@ def _trace(ctx, n_per_shard):
             events.append(("neigh", tuple(int(x) for x in coord), [tuple(int(x) for x in c) for c in r]))
         return r
 
-    def w_start(grid_shape, start_coord):
-        r = real_start(grid_shape, start_coord)
+    def w_start(grid_shape, start_coord=None, *a, **kw):
+        r = real_start(grid_shape, start_coord, *a, **kw)
         if state["on"]:
             events.append(("start", tuple(int(x) for x in r)))
         return r
 
     np.random.choice = w_choice
     G.get_neighbors_in_bounds = w_nb
-    G._random_start_coord = w_start
+    if real_start is not None:
+        G._random_start_coord = w_start
     try:
         for t in range(n_per_shard):
             rng = ctx.sub_rng("trace", ctx.shard, t)
@@ -214,7 +219,8 @@ def _trace(ctx, n_per_shard):
     finally:
         np.random.choice = real_choice
         G.get_neighbors_in_bounds = real_nb
-        G._random_start_coord = real_start
+        if real_start is not None:
+            G._random_start_coord = real_start
 
 
 def _replay(ctx, ev, cl, R, C, case):
